@@ -372,8 +372,11 @@ pub fn trace(args: &[String]) -> i32 {
             }
         }
         extra = cand.into_iter().filter(|p| !qs.contains(p)).take(3000).collect();
-        if !extra.is_empty() {
+        if layouts_differ > 0 {
             let nbase = qs.len();
+            // every phrase known to be ambiguous is asked of every copy as well (with its own number), then the new candidates
+            let mut ask: Vec<(usize, String)> = tie_phrases.iter().map(|qi| (*qi + 1, qs[*qi].clone())).collect();
+            ask.extend(extra.iter().enumerate().map(|(i, p)| (nbase + i + 1, p.clone())));
             for (k, (sid0, copy, _)) in layouts.iter().enumerate() {
                 std::env::set_var("XDG_DATA_HOME", copy);
                 let db = match Db::open() {
@@ -382,7 +385,7 @@ pub fn trace(args: &[String]) -> i32 {
                 };
                 let sid = 100 + k;
                 out.line(&json!({"ev": "session", "id": sid, "kind": "disk_copy", "of": sid0, "docs": 0}));
-                for (qi, q) in extra.iter().enumerate() {
+                for (qnum, q) in ask.iter() {
                     let o = run_query(&db, q, true);
                     let lk: Vec<Value> = o.events.iter().filter_map(|e| serde_json::from_str::<Value>(e).ok()).filter(|v| v["ev"] == "lookup").collect();
                     let top = if lk.len() == 1 && o.results.len() == 1 && o.results[0].is_ok() { lk[0]["top"].as_array().cloned().unwrap_or_default() } else { Vec::new() };
@@ -392,7 +395,13 @@ pub fn trace(args: &[String]) -> i32 {
                     lookups += 1;
                     let best = top[0][0].as_str().unwrap().to_string();
                     let tie: Vec<usize> = top.iter().filter(|t| t[0].as_str() == Some(best.as_str())).map(|t| *key_pos.get(t[1].as_str().unwrap()).unwrap_or(&0)).collect();
-                    out.line(&json!({"ev": "lookup", "s": sid, "q": nbase + qi + 1, "phrase": q, "win": tie[0], "tie": tie, "full": tie.len() < top.len() || top.len() < 8}));
+                    // the constant actually returned, as in the sessions above
+                    let returned = match o.descriptions.first() {
+                        Some((_, d)) if tie[0] >= 1 && tie[0] <= shipped.len() && shipped[tie[0] - 1].1.description == *d => tie[0] as i64,
+                        Some((_, d)) => shipped.iter().position(|(_, c)| c.description == *d).map(|i| i as i64 + 1).unwrap_or(-2),
+                        None => -2,
+                    };
+                    out.line(&json!({"ev": "lookup", "s": sid, "q": qnum, "phrase": q, "win": returned, "tie": tie, "full": tie.len() < top.len() || top.len() < 8}));
                 }
             }
             std::env::set_var("XDG_DATA_HOME", &home);
